@@ -17,6 +17,9 @@ from .common import coq_bool, coq_list, coq_opt, coq_q, coq_str, coq_uc
 HEADER = "From PintV Require Import Model.UC Model.UCRun.\nOpen Scope string_scope.\n"
 
 
+NONDYADIC = [F(1, 3), F(-2, 3), F(3, 5), F(1, 7), F(2, 9), F(-1, 10), F(5, 6)]
+
+
 def fd(uc):
     """real container -> dict name -> Fraction (exact)"""
     return {k: F(v) for k, v in uc._d.items()}
@@ -209,6 +212,29 @@ def run(ck):
             oracle((ua / ua) == ureg.Unit("") and (ua ** 0) == ureg.Unit(""), "div-self", "Unit u/u or u**0 not dimensionless", rp)
             oracle(hash(ua ** 0) == hash(ureg.Unit("")), "pow-zero", "hash(u**0) != hash(dimensionless)", rp)
             oracle(snapshot(ua._units) == sa and snapshot(ub._units)[0] == sb[0], "mutation", "Unit operand mutated", rp)
+            # rational exponents that are NOT dyadic can only be produced by ** : the laws must hold for them too,
+            # whatever the numeric type of the container (exponents add exactly; both operand orders agree)
+            ea, eb = rng.choice(NONDYADIC), rng.choice(NONDYADIC)
+            for layer, xa, xb in (("Unit", ua ** ea, ub ** eb), ("UnitsContainer", ua._units ** ea, ub._units ** eb),
+                                  ("Quantity", ureg.Quantity(2, ua) ** ea, ureg.Quantity(3, ub) ** eb) if all(v > 0 for v in [2, 3]) else ("Unit", ua ** ea, ub ** eb)):
+                rq = dict(rp, layer=layer, ea=str(ea), eb=str(eb))
+                ab, ba = xa * xb, xb * xa
+                ca = ab._units if hasattr(ab, "_units") else ab
+                cb = ba._units if hasattr(ba, "_units") else ba
+                oracle(ca == cb and hash(ca) == hash(cb) and dict(ca.items()) == dict(cb.items()), "comm-rational",
+                       f"{layer}: a**{ea} * b**{eb} differs from b**{eb} * a**{ea}: {dict(ca.items())} vs {dict(cb.items())}", rq)
+                exact = all(isinstance(v, (int, F)) for v in list(da.values()) + list(db.values())) and nit is F or \
+                    all(F(v).denominator == 1 for v in list(da.values()) + list(db.values()))
+                if exact:
+                    want = {}
+                    for k, v in da.items():
+                        want[k] = want.get(k, 0) + F(v) * ea
+                    for k, v in db.items():
+                        want[k] = want.get(k, 0) + F(v) * eb
+                    want = {k: v for k, v in want.items() if v != 0}
+                    got = {k: v for k, v in ca.items()}
+                    oracle(set(got) == set(want) and all(not isinstance(got[k], float) and F(got[k]) == want[k] for k in want), "exponents-add-rational",
+                           f"{layer}: exponents of a**{ea} * b**{eb} are {got}, the exact sums are {want}", rq)
             # dimensionality homomorphism on the real registry
             if all(x.denominator == 1 for x in list(da.values()) + list(db.values())):
                 oracle((ua * ub).dimensionality == ua.dimensionality * ub.dimensionality, "dim-hom", "dim(a*b) != dim(a)*dim(b)", rp)
